@@ -179,8 +179,7 @@ def rule_b(ctx: Ctx) -> None:
                 'restore branch reassigns both maps; popping stops at the first ancestor context.')
 
 
-def rule_c(ctx: Ctx) -> None:
-    rule = 'C17.c'
+def rule_c(ctx: Ctx, rule: str = 'C17.c') -> None:
     for meth, store in (('_parse', 'nsmaps[node]'), ('_lazy_iterparse', 'self._nsmaps[node]')):
         f = ctx.idx.method(LOADER, meth)
         g = cfg_of(ctx, f)
@@ -238,7 +237,7 @@ def rule_c(ctx: Ctx) -> None:
         app = call_nodes(g, lambda c: text(c.func) == 'start_ns.append')
         ok = bool(app) and all(("event == 'start-ns'", 'T') in guards(ctx, f, n) for n, c in app)
         ctx.ob(rule, f"{meth}: 'start-ns' events are accumulated for the next start tag", f.loc(), ok, '', key=f'{meth}|accumulate')
-    ctx.explain('C17.c: per-function invariants of the namespace stack in both parser loops (push = copy of top, then update; '
+    ctx.explain(f'{rule}: per-function invariants of the namespace stack in both parser loops (push = copy of top, then update; '
                 'store top for every start; pop only under the end-ns flag; fresh start_ns list).')
 
 
